@@ -159,10 +159,23 @@ class NPv:
     def array(x, dtype=None):
         if isinstance(x, AList):
             if not Ctx.cur.branch(x.numeric):
-                raise ValueError("could not convert string to float (abstract non-numeric content)")
+                # NumPy's contract: ValueError (strings, ragged nesting) or TypeError (complex numbers, dicts, arbitrary objects among the entries)
+                if Ctx.cur.branch(z3.Bool(f"{x.name}_conversion_error_is_TypeError")):
+                    err = TypeError("float() argument must be a string or a real number (abstract non-numeric content)")
+                    err.modelled = True
+                    raise err
+                err = ValueError("could not convert string to float (abstract non-numeric content)")
+                err.modelled = True
+                raise err
             Ctx.cur.pc.append(z3.And(x.ndim_t >= 1, x.ndim_t <= 4, *[d >= 0 for d in x.dims]))
             return AArr(x)
         raise Unsupported("np.array of a non-abstract value")
+
+    @staticmethod
+    def asarray(x, dtype=None):
+        a = NPv.array(x, dtype=dtype)
+        a.fresh = False  # np.asarray returns its argument when it already is a float array: no independent copy
+        return a
 
     @staticmethod
     def reshape(a, shape):
@@ -511,7 +524,7 @@ def grammar():
         "(5,)seg_h": (1.0, 2.0, -1.0, 0.0, 90.0), "(1,3)": [(1.0, 2.0, 3.0)], "(2,3)": [(0.0, 0.0, 0.0), (1.0, 0.0, 0.0)],
         "(3,3)": [(0.0, 0.0, 0.0), (1.0, 0.0, 0.0), (0.0, 1.0, 0.0)], "(4,3)": [(0.0, 0.0, 0.0), (1.0, 0.0, 0.0), (0.0, 1.0, 0.0), (0.0, 0.0, 1.0)],
         "(5,3)": [(0.0, 0.0, 0.0)] * 5, "(4,2)": np.ones((4, 2)), "(3,2)": np.ones((3, 2)), "(4,4)": np.ones((4, 4)), "(2,2,3)": np.ones((2, 2, 3)),
-        "0-d": np.array(1.0), "empty": [], "ragged": [1, [2, 3], 4], "strs": ["1", "2", "x"], "(3,1)": [[1.0], [2.0], [3.0]], "dict": {"a": 1}, "complex": 1 + 2j,
+        "0-d": np.array(1.0), "empty": [], "(3,)complex": [1.0, 2.0, 1j], "(3,)dict": [1.0, 2.0, {}], "(3,)obj": [1.0, 2.0, object()], "ragged": [1, [2, 3], 4], "strs": ["1", "2", "x"], "(3,1)": [[1.0], [2.0], [3.0]], "dict": {"a": 1}, "complex": 1 + 2j,
         "[left]": ["left"], "right": "right",
     }
     return vals
@@ -574,8 +587,9 @@ def native_sweep(seed):
                 runs += 1
                 o = mk[cname]()
                 before = {k: (v.copy() if isinstance(v, np.ndarray) else v) for k, v in o.__dict__.items() if not k.startswith("_style")}
+                passed = val.copy() if isinstance(val, np.ndarray) else (np.array(val, dtype=float) if vname in ("(3,)", "(2,)", "(5,)seg", "(4,3)", "(3,3)", "(2,3)") else val)
                 try:
-                    setattr(o, attr, val.copy() if isinstance(val, np.ndarray) else val)
+                    setattr(o, attr, passed)
                     accepted = True
                 except MagpylibBadUserInput:
                     accepted = False
@@ -606,10 +620,10 @@ def native_sweep(seed):
                         pass
                     except Exception as e:  # pylint: disable=broad-except
                         bad.append(f"{cname}.{attr} = <{vname}>: accepted, but the field computation later fails with {type(e).__name__}")
-                if accepted and isinstance(val, np.ndarray) and val.ndim >= 1:
-                    stored = getattr(o, attr)
-                    if stored is not None and np.shares_memory(np.asarray(stored), val):
-                        bad.append(f"{cname}.{attr}: stored value shares memory with the caller's array")
+                if accepted and isinstance(passed, np.ndarray) and passed.ndim >= 1 and attr != "handedness":
+                    stored = getattr(o, "_" + attr, None)
+                    if stored is not None and isinstance(stored, np.ndarray) and np.shares_memory(stored, passed):
+                        bad.append(f"{cname}.{attr} = <{vname}>: stored value shares memory with the caller's array (not an independent copy)")
     return runs, bad
 
 
